@@ -235,7 +235,34 @@ func EncodeWriter(w io.Writer, privKey crypto.PrivKey, token Tokener, encFn code
 		return err
 	}
 
-	return ipld.EncodeStreaming(w, node, encFn)
+	return EncodeStreaming(w, node, encFn)
+}
+
+// errLatch remembers the first error of the underlying writer.
+type errLatch struct {
+	w   io.Writer
+	err error
+}
+
+func (l *errLatch) Write(p []byte) (int, error) {
+	if l.err != nil {
+		return 0, l.err
+	}
+	n, err := l.w.Write(p)
+	if err != nil {
+		l.err = err
+	}
+	return n, err
+}
+
+// EncodeStreaming is ipld.EncodeStreaming, except that an error of the writer is always
+// returned (the DAG-JSON encoder doesn't report them).
+func EncodeStreaming(w io.Writer, node datamodel.Node, encFn codec.Encoder) error {
+	lw := &errLatch{w: w}
+	if err := ipld.EncodeStreaming(lw, node, encFn); err != nil {
+		return err
+	}
+	return lw.err
 }
 
 // ToDagCbor marshals the Tokener to the DAG-CBOR format.
